@@ -717,6 +717,23 @@ TrCodec ==
         /\ nviol' = nviol + Cardinality(V)
   /\ UNCHANGED <<ctx, saved, refObs>>
 
+(* C06 after a transient failure to create the next WAL file (harness `obstacle`): after every call  *)
+(* that returned Ok, and after every open, that follows the failure.                                *)
+TrObstacle ==
+  /\ R.ev = "obstacle"
+  /\ LET bad(f) ==
+           \/ f.disk_files # f.tracked
+           \/ Len(f.tracked) = 0
+           \/ f.tracked[Len(f.tracked)] # f.w
+           \/ \E i \in 1..(Len(f.tracked) - 1) : f.tracked[i + 1] # f.tracked[i] + 1
+           \/ f.disk_used # Len(f.disk_files) * FileSize
+         V == {<<"C06", "after a transient failure to create the next WAL file and a later " \o R.checks[i].after \o
+                        " that returned Ok: the directory, the tracked files and disk usage disagree or are not a contiguous run">> :
+                 i \in {i \in 1..Len(R.checks) : bad(R.checks[i].f)}}
+     IN /\ Report(V)
+        /\ nviol' = nviol + Cardinality(V)
+  /\ UNCHANGED <<ctx, saved, refObs>>
+
 TrPop ==
   /\ R.ev = "pop"
   /\ ctx' = saved
@@ -726,7 +743,7 @@ TrPop ==
 TraceNext ==
   /\ l <= NLines
   /\ l' = l + 1
-  /\ \/ TrRun \/ TrInit \/ TrBegin \/ TrEnd \/ TrCrash \/ TrPop \/ TrDamage \/ TrFault \/ TrName \/ TrDirHist \/ TrPair \/ TrPairCrash \/ TrFrames \/ TrExpect \/ TrCodec
+  /\ \/ TrRun \/ TrInit \/ TrBegin \/ TrEnd \/ TrCrash \/ TrPop \/ TrDamage \/ TrFault \/ TrName \/ TrDirHist \/ TrPair \/ TrPairCrash \/ TrFrames \/ TrExpect \/ TrCodec \/ TrObstacle
 
 TraceInit ==
   /\ l = 1
